@@ -99,6 +99,16 @@ def run(ctx):
                 C.violation(ctx, "bytes-length:%s:%d" % (tname, n),
                             "%s with a string/bytes field of %d bytes: expected %s with length header %s, implementation: %s (header %s)" % (tname, n, want, whdr, cls, hdr),
                             {"kind": "B", "type": tname, "length": n, "expected": want, "expected_header": whdr, "got": cls, "header": hdr})
+        elif f[0] == "G":
+            _, cid, what, where = f[:4]
+            evals += 1
+            C.violation(ctx, "marshal-writes-into-its-argument",
+                        "tl.Marshal(%s) wrote into the caller's memory behind a byte string of the value it was given (%s): a value cut "
+                        "out of a larger buffer is no longer equal to the original, nor is whatever lies behind it"
+                        % (T.short(what, 80), bytes.fromhex(where).decode("utf-8", "replace")),
+                        {"kind": "G", "value": what, "where": bytes.fromhex(where).decode("utf-8", "replace"),
+                         "oracle": "every generated []byte is a sub-slice (cap = len + 6) of an array whose tail holds 0xc3; after two "
+                                   "Marshal calls the tail must still hold it"})
         elif f[0] == "A":
             _, cid, what, was, now, after = f
             evals += 1
